@@ -308,6 +308,7 @@ def _reaches_all_returns(cfg, node):
 
 
 def run(ctx, chk):
+    shared.rule_no_keyed_collapse(ctx, chk, "C14.0:keyed", ("value_iteration_rewards",))      # parallel transitions are separate transitions
     # observed through the batch driver: run_games()[name]['prob_min_rew', 'rew_min_reach'] must be this game's, this mode's value
     from . import C12 as _C12
     _C12.observe(ctx, chk, "C14.obs", ['prob_min_rew', 'rew_min_reach'])
